@@ -21,7 +21,7 @@ TIERS = {
     # `per_config` = number of spaces every configuration is run on (rotating
     # through the spaces it admits, so that every space is used).
     'quick': dict(shards=8, Ns=[10], W=3, M=3, per_config=3, timeout_s=600),
-    'thorough': dict(shards=16, Ns=[6, 12, 24], W=3, M=4, per_config=6,
+    'thorough': dict(shards=16, Ns=[6, 12, 24], W=3, M=4, per_config=8,
                      timeout_s=3000, case_timeout_s=900),
 }
 LEVEL = 'fault_enumeration'
@@ -580,13 +580,20 @@ def needs_tail(cfg):
 
 
 def case_cost(cfg, weight, n):
-  """Rough relative cost of a case (for balancing the shards)."""
-  runs = 2.0 if needs_tail(cfg) else 1.0
+  """Rough relative cost of a case (for balancing the shards; factors fitted
+  to measured CPU times)."""
+  runs = 1.0
   if is_puppet(cfg):
+    runs = 4.0
+  elif cfg.feedback:
     runs = 3.0
-  if 'Random' in cfg.name or cfg.family == 'neat':
+  if 'Random[seeded]' in cfg.name:
+    runs *= 4.0
+  if cfg.family == 'neat':
     runs *= 2.0
-  return runs * weight * n * n
+  if 'nsga2' in cfg.name:
+    runs *= 1.6
+  return runs * (weight + 0.5) * n * n
 
 
 def case_table(ctx):
